@@ -151,6 +151,8 @@ type pathRun struct {
 	funcs   map[*ssa.Function]*int
 	stubs   map[string]int
 	rtPanics []string
+	softFailed bool    // a vpCheck failed on this path (the path went on)
+	softTerms  []*Term // conditions of the vpChecks passed on this path
 	observations []string
 	curFn   *ssa.Function
 	sched   *scheduler
@@ -538,7 +540,12 @@ func (e *Engine) runPath(fn *ssa.Function, it workItem, solver *Solver) {
 			}
 		}
 	}
-	if len(res.Samples) < 6 && (outcome == "completed" || len(res.Samples) < 2) {
+	for _, t := range r.softTerms {
+		if r.eval(t) == 0 {
+			r.softFailed = true // fails for the inputs this path would be sampled with
+		}
+	}
+	if len(res.Samples) < 6 && !r.softFailed && (outcome == "completed" || len(res.Samples) < 2) {
 		res.Samples = append(res.Samples, map[string]any{
 			"outcome": outcome, "decisions": len(r.trail), "steps": r.steps,
 			"inputs": r.replayVals(r.model), "detail": trunc(detail, 300),
@@ -611,7 +618,7 @@ func (e *Engine) recordFinding(r *pathRun, label, exc string, model map[string]u
 }
 
 // assertion implements vpAssert.
-func (r *pathRun) assertion(label string, cond value) {
+func (r *pathRun) assertion(label string, cond value, soft bool) {
 	c := r.ctx
 	if r.local() != nil {
 		r.abort("unsupported", "vpAssert inside a summarised (pure) function")
@@ -628,6 +635,9 @@ func (r *pathRun) assertion(label string, cond value) {
 	excuses := r.excuses
 	r.excuses = nil
 	e := r.eng
+	if soft && !ct.IsTrue() {
+		r.softTerms = append(r.softTerms, ct)
+	}
 	if ct.IsTrue() {
 		e.mu.Lock()
 		e.res.TrivialTrue++
@@ -643,6 +653,9 @@ func (r *pathRun) assertion(label string, cond value) {
 	if r.pos < len(r.prefix) {
 		// still following the prefix: the run that forked this path already
 		// discharged (or reported) this very query under the same path condition
+		if soft {
+			return
+		}
 		if ct.IsFalse() {
 			r.abort("assume-false", "assertion "+label+" failed concretely")
 		}
@@ -660,6 +673,7 @@ func (r *pathRun) assertion(label string, cond value) {
 		e.mu.Unlock()
 	case "sat":
 		e.recordFinding(r, label, "", m, "")
+		r.softFailed = r.softFailed || soft
 	default:
 		e.noteInconclusive(fmt.Sprintf("assert %s at %s: %s", label, r.where(), res))
 	}
@@ -670,7 +684,11 @@ func (r *pathRun) assertion(label string, cond value) {
 		res, m := r.check(neg, x.t)
 		if res == "sat" {
 			e.recordFinding(r, label, x.name, m, "")
+			r.softFailed = r.softFailed || soft
 		}
+	}
+	if soft {
+		return
 	}
 	// continue under the assumption that the assertion held
 	if ct.IsFalse() {
